@@ -129,7 +129,8 @@ func (e *vcEvents) NotifyConflict(a, b *Node) {
 // cfg vector: see vcGenCfg
 type vcCfg struct {
 	reclaimMs, gtdMs, mult, intervalMs, maxMult, awMax int64
-	conflict, cidr                                    bool
+	conflict                                          bool
+	cidr                                              int64
 	bootMeta                                          int64
 }
 
@@ -144,7 +145,7 @@ func vcIndepAllowed(nets []net.IPNet, ip net.IP) bool {
 
 func vcRun(t *testing.T, c *vfCase, st *vfStats) {
 	cfgv := c.Cfg
-	cc := vcCfg{cfgv[0], cfgv[1], cfgv[2], cfgv[3], cfgv[4], cfgv[5], cfgv[6] != 0, cfgv[7] != 0, cfgv[8]}
+	cc := vcCfg{cfgv[0], cfgv[1], cfgv[2], cfgv[3], cfgv[4], cfgv[5], cfgv[6] != 0, cfgv[7], cfgv[8]}
 	conf := DefaultLANConfig()
 	conf.Name = "self"
 	conf.Transport = &vcTr{make(chan *Packet), make(chan net.Conn)}
@@ -163,8 +164,14 @@ func vcRun(t *testing.T, c *vfCase, st *vfStats) {
 	conf.SuspicionMaxTimeoutMult = int(cc.maxMult)
 	conf.AwarenessMaxMultiplier = int(cc.awMax)
 	var nets []net.IPNet
-	if cc.cidr {
+	switch cc.cidr {
+	case 1:
 		nets, _ = ParseCIDRs([]string{"10.0.0.0/8"})
+		conf.CIDRsAllowed = nets
+	case 2:
+		// prefixes that end inside a byte: 10.0.0.2 and ::ffff:10.0.0.3 share three whole bytes with the
+		// second network but are outside it
+		nets, _ = ParseCIDRs([]string{"10.0.0.100/32", "10.0.0.0/31", "fe80::/9"})
 		conf.CIDRsAllowed = nets
 	}
 	m, err := newMemberlist(conf)
@@ -191,7 +198,7 @@ func vcRun(t *testing.T, c *vfCase, st *vfStats) {
 	}
 	var allowed []int64
 	for i, a := range vcAddrs {
-		if !cc.cidr || vcIndepAllowed(nets, a) {
+		if cc.cidr == 0 || vcIndepAllowed(nets, a) {
 			allowed = append(allowed, int64(i))
 		}
 	}
@@ -461,7 +468,7 @@ func vcGen(r *vfRng) vfCase {
 		conflict = 0
 	}
 	if r.chance(40) {
-		cidr = 1
+		cidr = 1 + int64(r.n(2))
 	}
 	c.Cfg = []int64{reclaim, gtd, mult, 1000, maxMult, awMax, conflict, cidr, int64(r.n(2))}
 	n := 6 + r.n(14)
